@@ -409,6 +409,25 @@ def u_hist_invalidation(root):
     c.ensures.append(lambda vw: [("the contents change: cached total uncertainty dropped", F(vw, vw.post, "_total_error").e == NULL),
                                  ("EVERY source is re-pointed to the container's (lazily binned) contents and every relative source's cached absolute covariance and pointwise sizes are dropped", errlib.repointed(vw.post, ES, ESlen, me))])
     eng.verify("HistContainer", "fill", None, lambda e, st, me_: {"entries": x}, contract=c)
+    # rebin / set_bins: the other two ways the bin contents change (property quantifier: "histogram fill/rebin") carry the same obligation
+    edges = VSeq.fresh("new_bin_edges")
+    edges.ndim = z3.IntVal(1)
+    heights = VSeq.fresh("bin_heights")
+    heights.ndim = z3.IntVal(1)
+    for meth, args in (("rebin", {"new_bin_edges": edges}), ("set_bins", {"bin_heights": heights})):
+        c = Contract("HistContainer", meth)
+        c.requires.append(lambda vw: z3.And(ESlen >= 0, edges.len >= 2, heights.len >= 0, errlib.distinct_sources(vw.pre, ES, ESlen)))
+        c.loops[0] = lambda e, s: z3.And(0 <= s.locals["#i0"].e, s.locals["#i0"].e <= ESlen, s.h("_error_dicts", "namemap") == H("_error_dicts", "namemap"), s.h("err", "ref") == H("err", "ref"),
+                                         s.h("_is_relative", "bool") == H("_is_relative", "bool"), errlib.repointed(s, ES, ESlen, me, upto=s.locals["#i0"].e))
+
+        def post(vw, meth=meth):
+            if vw.flow == "raise":
+                return [("a rejected call leaves the cached total and the sources as they were", z3.And(F(vw, vw.post, "_total_error").e == F(vw, vw.pre, "_total_error").e, vw.post.h("_reference", "callref", "kind") == vw.pre.h("_reference", "callref", "kind"),
+                                                                                                        vw.post.h("_cov_mat", "ref") == vw.pre.h("_cov_mat", "ref")))]
+            return [("the contents change: cached total uncertainty dropped", F(vw, vw.post, "_total_error").e == NULL),
+                    ("EVERY source is re-pointed to the container's new contents and every relative source's cached absolute covariance and pointwise sizes are dropped", errlib.repointed(vw.post, ES, ESlen, me))]
+        c.ensures.append(post)
+        eng.verify("HistContainer", meth, None, lambda e, st, me_, args=args: dict(args), contract=c)
     return eng
 
 
@@ -559,11 +578,45 @@ def u_xy_setters(root):
                     ("EVERY source of this axis, enabled or not, refers to the new values (relative ones drop their cached absolute covariance); sources of the other axis are untouched", repointed_upto(s, ESlen))]
         c.ensures.append(post)
         eng.verify("XYContainer", name, "setter", lambda e, st, me_, name=name: {"new_" + name: newv}, contract=c)
+    # XYParametricModel.x setter: a NEW data array (possibly of another length) - the x sources must follow it as they do in the container
+    eng.schema["XYParametricModel"] = {"_pm_calculation_stale": BOOL}
+    newx = VSeq.fresh("new_support")
+    m = newx.len
+    c = Contract("XYParametricModel", "x", "setter")
+    c.requires.append(lambda vw: z3.And(m >= 0, ESlen >= 0, errlib.distinct_sources(vw.pre, ES, ESlen)))
+
+    def px_upto(s, k):
+        RK, RA, RL = s.h("_reference", "callref", "kind"), s.h("_reference", "callref", ""), s.h("_reference", "callref", "len")
+        CM, ISREL = s.h("_cov_mat", "ref"), H("_is_relative", "bool")
+        RK0, RA0 = H("_reference", "callref", "kind"), H("_reference", "callref", "")
+        return z3.ForAll([b_], z3.Implies(z3.And(0 <= b_, b_ < k), z3.If(AX[ES[b_]] == 0,
+                         z3.And(RK[ERR[ES[b_]]] == 1, RL[ERR[ES[b_]]] == m, z3.ForAll([a_], z3.Implies(z3.And(0 <= a_, a_ < m), RA[ERR[ES[b_]]][a_] == newx.arr[a_])), z3.Implies(ISREL[ERR[ES[b_]]], CM[ERR[ES[b_]]] == NULL)),
+                         z3.And(RK[ERR[ES[b_]]] == RK0[ERR[ES[b_]]], RA[ERR[ES[b_]]] == RA0[ERR[ES[b_]]], CM[ERR[ES[b_]]] == H("_cov_mat", "ref")[ERR[ES[b_]]]))))
+
+    def px_inv(e, s):
+        k = s.locals["#i0"].e
+        D = e.read_field(s, s.locals["self"], "_data")
+        RK0, RA0 = H("_reference", "callref", "kind"), H("_reference", "callref", "")
+        RK, RA, CM = s.h("_reference", "callref", "kind"), s.h("_reference", "callref", ""), s.h("_cov_mat", "ref")
+        return z3.And(0 <= k, k <= ESlen, D.rows == 2, D.cols == m, z3.ForAll([a_], z3.Implies(z3.And(0 <= a_, a_ < m), D.at(0, a_) == newx.arr[a_])),
+                      s.h("_error_dicts", "namemap") == H("_error_dicts", "namemap"), s.h("err", "ref") == ERR, s.h("axis", "int") == AX, s.h("_is_relative", "bool") == H("_is_relative", "bool"), s.h("enabled", "bool") == H("enabled", "bool"),
+                      px_upto(s, k),
+                      z3.ForAll([b_], z3.Implies(z3.And(k <= b_, b_ < ESlen), z3.And(RK[ERR[ES[b_]]] == RK0[ERR[ES[b_]]], RA[ERR[ES[b_]]] == RA0[ERR[ES[b_]]], CM[ERR[ES[b_]]] == H("_cov_mat", "ref")[ERR[ES[b_]]]))))
+    c.loops[0] = px_inv
+
+    def px_post(vw):
+        s = vw.post
+        D = F(vw, s, "_data")
+        return [("the new support values are the x row of a fresh 2 x len array", z3.And(D.rows == 2, D.cols == m, z3.ForAll([a_], z3.Implies(z3.And(0 <= a_, a_ < m), D.at(0, a_) == newx.arr[a_])))),
+                ("model values marked stale", F(vw, s, "_pm_calculation_stale").e), ("cached totals dropped", F(vw, s, "_total_error").none),
+                ("EVERY x source, enabled or not, refers to the new support values (relative ones drop their cached absolute covariance); y sources are re-pointed when the model values are recomputed", px_upto(s, ESlen))]
+    c.ensures.append(px_post)
+    eng.verify("XYParametricModel", "x", "setter", lambda e, st, me_: {"new_x": newx}, contract=c)
     return eng
 
 
 def units(root):
     return [Unit("XYContainer.x / .y setters re-point every source of the axis", u_xy_setters), Unit("SimpleGaussianError._calculate_cov_mat_generic", u_generic), Unit("SimpleGaussianError caches", u_source), Unit("SimpleGaussianError setters", u_source_setters),
             Unit("SimpleGaussianError.error", u_source_error_getters), Unit("IndexedContainer total error", u_total), Unit("IndexedContainer mutators", u_mutators),
-            Unit("HistContainer.fill invalidation", u_hist_invalidation), Unit("HistContainer._get_error_reference", u_hist_reference), Unit("parametric model: recompute before summing", u_model_recalc), Unit("HistParametricModel._recalculate re-points sources", u_hist_model_recalc),
+            Unit("HistContainer.fill, rebin, set_bins invalidation", u_hist_invalidation), Unit("HistContainer._get_error_reference", u_hist_reference), Unit("parametric model: recompute before summing", u_model_recalc), Unit("HistParametricModel._recalculate re-points sources", u_hist_model_recalc),
             Unit("XYContainer total error", u_xy)]
